@@ -1,5 +1,145 @@
-(* C12 -- placeholder while the check is being developed; replaced below. *)
-From Cog Require Import Model.JsonSchemaOut.
-Theorem c12_placeholder : JSEmpty = JSEmpty.
-Proof. exact eq_refl. Qed.
-Print Assumptions c12_placeholder.
+(* C12 -- the JSON Schema and OpenAPI documents cog emits describe the same documents as the generated types.
+   Statements only; proofs in Proofs/JsonSchemaOutProofs.v and Proofs/JsonSchemaOutEncode.v.
+   Model: Model/JsonSchemaOut.v (emit_* mirror internal/jennies/jsonschema/schema.go and the OpenAPI variant;
+   js_valid validates exactly the emitted shapes), Model/JsonSchemaOutSpec.v (jv, sat), and the Go semantics
+   model Model/GoSemDecode.v (encode) / Model/GoSemSpec.v (wt). *)
+From Coq Require Import List String ZArith Bool.
+From Cog Require Import Model.IR Model.Json Model.GoSemBase Model.GoSemDecode Model.GoSemSpec
+  Model.JsonSchemaOut Model.JsonSchemaOutSpec Proofs.JsonSchemaOutProofs Proofs.JsonSchemaOutEncode
+  Proofs.JsonSchemaOutWitness.
+Import ListNotations.
+Local Open Scope string_scope.
+
+(* ---------- every $ref resolves ---------- *)
+(* For every context whose own references locate an object (C05) and every schema of it: whenever the jenny
+   returns, every `$ref` of the document -- in local definitions, in the inlined foreign ones at any depth of the
+   foreign-object loop, and the top-level entry point -- names a key of `definitions`. *)
+Theorem emitted_refs_resolve : forall ctx s fuel jd,
+    ctx_wf ctx -> In s ctx -> refs_located ctx s ->
+    (s_entry s = "" \/ In (s_entry s) (map o_name (objects_of s))) ->
+    emit_schema ctx fuel s = Ok jd ->
+    forall r, In r (doc_refs jd) -> In r (def_names jd).
+Proof. exact emit_schema_refs_resolve. Qed.
+Print Assumptions emitted_refs_resolve.
+
+(* ... but the jenny need not return: a foreign type that refers to itself is collected on every round
+   (witness Model/JsonSchemaOutSpec.v w_rec_ctx: alpha.Root{x: ref beta.Node}, beta.Node{next?: ref beta.Node}) *)
+Theorem foreign_recursive_type_never_ends :
+  exists s, In s w_rec_ctx /\ forall fuel, emit_schema w_rec_ctx fuel s = OutOfFuel.
+Proof. exact w_rec_never_ends. Qed.
+Print Assumptions foreign_recursive_type_never_ends.
+
+(* ---------- every object and field of the IR appears under its own name ---------- *)
+(* full statement: the definition stored under an object's name is that object's own *)
+Definition every_object_present_statement : Prop :=
+  forall ctx s fuel jd, In s ctx -> NoDup (map o_name (objects_of s)) -> emit_schema ctx fuel s = Ok jd ->
+                        forall o, In o (objects_of s) -> om_get (jd_defs jd) (o_name o) = Some (object_to_definition o).
+
+(* refuted: foreign objects are inlined under their bare name *)
+Theorem every_object_and_field_present_refuted : ~ every_object_present_statement.
+Proof. exact objects_present_refuted. Qed.
+Print Assumptions every_object_and_field_present_refuted.
+
+(* proved when no object of another package carries the name of a local object *)
+Theorem every_object_and_field_present_partial : forall ctx s fuel jd,
+    ctx_wf ctx -> In s ctx -> NoDup (map o_name (objects_of s)) ->
+    (forall p n o, p <> s_pkg s -> locate_object ctx p n = Some o -> ~ In (o_name o) (map o_name (objects_of s))) ->
+    emit_schema ctx fuel s = Ok jd ->
+    forall o, In o (objects_of s) ->
+              om_get (jd_defs jd) (o_name o) = Some (object_to_definition o) /\
+              (forall a dh fs f, o_type o = TStruct a dh fs -> NoDup (map (@f_name ty) fs) -> In f fs ->
+                 exists req props, emit_type (o_type o) = JSStruct req props /\
+                                   exists de df, om_get props (f_name f) = Some (emit_type (f_type f), de, df)).
+Proof. exact objects_and_fields_present. Qed.
+Print Assumptions every_object_and_field_present_partial.
+
+(* ---------- every encoding of a value of the generated Go types validates ---------- *)
+Definition encoded_values_validate_statement : Prop :=
+  forall ctx defs t v, faithful ctx defs -> wt ctx t v = true -> jv defs (emit_type t) (encode ctx t v).
+
+(* refuted twice over: `any` is emitted as `type: object`, and nullability is not expressed *)
+Theorem encoded_values_validate_refuted : ~ encoded_values_validate_statement.
+Proof. exact encoded_refuted_any. Qed.
+Print Assumptions encoded_values_validate_refuted.
+
+Theorem encoded_values_validate_refuted_nullable :
+  exists ctx defs t v, faithful ctx defs /\ wt ctx t v = true /\ is_any t = false /\
+                       ~ jv defs (emit_type t) (encode ctx t v).
+Proof. exact encoded_refuted_nullable. Qed.
+Print Assumptions encoded_values_validate_refuted_nullable.
+
+(* proved for valid values (Model/JsonSchemaOutSpec.v `sat`: constraints, constants and enumeration membership
+   hold, `any` positions hold objects, nil only where omitempty drops it, fields named apart), for every context
+   and definitions table that is faithful to it, at any nesting depth, through any chain of references *)
+Theorem encoded_values_validate_partial : forall ctx defs, faithful ctx defs ->
+    forall v t, wt ctx t v = true -> sat ctx t v = true -> jv defs (emit_type t) (encode ctx t v).
+Proof. exact encode_validates. Qed.
+Print Assumptions encoded_values_validate_partial.
+
+(* the definitions the jenny emits for a single-package context are faithful to it *)
+Theorem single_package_definitions_faithful : forall s fuel jd,
+    (forall k o, In (k, o) (s_objects s) -> k = o_name o) -> NoDup (map o_name (objects_of s)) ->
+    emit_schema [s] fuel s = Ok jd -> faithful [s] (defs_of jd).
+Proof. exact single_package_faithful. Qed.
+Print Assumptions single_package_definitions_faithful.
+
+(* the executable validator the correspondence runs decides the relation the theorems speak about *)
+Theorem js_valid_decides_jv : forall defs fuel s d,
+    (js_valid defs fuel s d = Some true -> jv defs s d) /\ (js_valid defs fuel s d = Some false -> ~ jv defs s d).
+Proof. intros; split; [apply js_valid_sound | apply js_valid_complete]. Qed.
+Print Assumptions js_valid_decides_jv.
+
+(* ---------- required-ness, constraints, enum values and defaults are carried over unchanged ---------- *)
+Theorem constraints_carried :
+  (* required-ness *)
+  (forall a dh fs req props n, emit_type (TStruct a dh fs) = JSStruct req props ->
+      (In n req <-> exists f, In f fs /\ f_name f = n /\ f_required f = true)) /\
+  (* defaults (fields named apart) *)
+  (forall a dh fs f req props ps de df, NoDup (map (@f_name ty) fs) -> In f fs ->
+      emit_type (TStruct a dh fs) = JSStruct req props -> om_get props (f_name f) = Some (ps, de, df) ->
+      df = (if dyn_is_nil (dflt (ty_attrs (f_type f))) then None else Some (dyn_to_json (dflt (ty_attrs (f_type f)))))) /\
+  (* enum values *)
+  (forall a vs, emit_type (TEnum a vs) = JSEnum (map (fun ev => dyn_to_json (ev_value ev)) vs)) /\
+  (* numeric and string constraints (operators named apart: a repeated operator keeps its last argument) *)
+  (forall a k cs c kw, is_int_kind k = true \/ is_float_kind k = true ->
+      NoDup (map (fun c => number_kw (c_op c)) cs) -> In c cs -> number_kw (c_op c) = Some kw ->
+      exists ms, emit_type (TScalar a k DNil cs) = JSScalar ms /\ om_get ms kw = Some (first_arg c)) /\
+  (forall a cs c kw, NoDup (map (fun c => string_kw (c_op c)) cs) -> In c cs -> string_kw (c_op c) = Some kw ->
+      has_hint (TScalar a KString DNil cs) "string_format_datetime" = false ->
+      exists ms, emit_type (TScalar a KString DNil cs) = JSScalar ms /\ om_get ms kw = Some (first_arg c)) /\
+  (* constants *)
+  (forall a k v cs, dyn_is_nil v = false -> k <> KAny ->
+      exists ms, emit_type (TScalar a k v cs) = JSScalar ms /\ om_get ms "const" = Some (dyn_to_json v)).
+Proof. exact carried_over. Qed.
+Print Assumptions constraints_carried.
+
+(* what is NOT carried: nullability, constant references, intersections *)
+Theorem not_carried :
+  (forall t b, emit_type (set_nullable t b) = emit_type t) /\
+  (forall a p n v, emit_type (TConstRef a p n v) = JSEmpty) /\
+  (forall a bs, emit_type (TInter a bs) = JSEmpty).
+Proof. exact not_carried_over. Qed.
+Print Assumptions not_carried.
+
+(* ---------- non-vacuity: a context, a well-typed valid value, its encoding, and the verdict ---------- *)
+Definition ex_ctx : schemas :=
+  [mkSchema "p" {| m_kind := ""; m_variant := ""; m_identifier := "" |} "Root" (TRef A0 "p" "Root")
+     [("Inner", mkObject "Inner" [] (TStruct A0 [] [mkField "n" [] (TScalar A0 KInt64 DNil [{| c_op := ">="; c_args := [DInt "int64" 1] |}]) true]) "p" "Inner");
+      ("Root", mkObject "Root" ["the root"]
+                 (TStruct A0 [] [mkField "id" [] (TScalar A0 KString DNil [{| c_op := "minLength"; c_args := [DInt "int64" 2] |}]) true;
+                                 mkField "in" [] (TRef A0 "p" "Inner") true;
+                                 mkField "opt" [] (TScalar {| nullable := true; dflt := DNil; hints := [] |} KBool DNil []) false;
+                                 mkField "tags" [] (TArray A0 (TScalar A0 KString DNil [])) true]) "p" "Root")]].
+Definition ex_val : gval :=
+  GStruct [("id", GStr "ab"); ("in", GStruct [("n", GInt 3)]); ("opt", GNil); ("tags", GSlice [GStr "x"])].
+
+Example encoded_value_validates :
+  exists s jd, In s ex_ctx /\ emit_schema ex_ctx (emit_fuel ex_ctx) s = Ok jd /\
+               refs_resolve_b jd = true /\
+               wt ex_ctx (TRef A0 "p" "Root") ex_val = true /\ sat ex_ctx (TRef A0 "p" "Root") ex_val = true /\
+               doc_valid jd "Root" (encode ex_ctx (TRef A0 "p" "Root") ex_val) = Some true /\
+               doc_valid jd "Root" (JObj [("id", JStr "a"); ("in", JObj [("n", JNum 3 0)]); ("tags", JArr [])]) = Some false.
+Proof.
+  eexists; eexists. split; [left; reflexivity|]. split; [vm_compute; reflexivity|].
+  repeat split; vm_compute; reflexivity.
+Qed.
